@@ -6,7 +6,9 @@ DeviceConfigurationRequest transmission is acknowledged according to an ACK plan
 (ok, request lost, ack lost, duplicate ack, error status, ack with a foreign counter,
 ack with a foreign channel) and every accepted request is answered according to an
 answer plan (right, late beyond the timeout, twice, other property, other object type,
-other instance, other message type, none, M_PropInfo.ind interleaved, error code); the
+other instance, other message type, none, M_PropInfo.ind for the same or another property
+interleaved before the answer or instead of it, error code), on connections with and
+without an indication callback; the
 connection is closed (server DisconnectRequest, transport loss, client disconnect()) at
 generated offsets after a request was received. All plans up to a bounded length are
 enumerated for 1-2 requests, longer ones (3 callers, reconnects) are sampled. The oracle
@@ -30,7 +32,7 @@ PROPERTY = "C32"
 LEVEL = "fault_enumeration"
 TECHNIQUE = "bounded exhaustive enumeration of server ACK / answer / close fault plans + Hypothesis-sampled longer schedules; real UDP/TCP device-management connection on a virtual-time loop vs scriptable simulated server; wire-log oracle"
 RULE = (
-    "case = (transport, 1..3 read/write callers on distinct properties, concurrent or sequential, per-transmission ACK plan, per-accepted-request answer plan, "
+    "case = (transport, indication callback registered or not, 1..3 read/write callers on distinct properties, concurrent or sequential, per-transmission ACK plan, per-accepted-request answer plan, "
     "optional close {server DisconnectRequest, transport loss, client disconnect()} at an offset after the n-th request was received, optional reconnect + one more request); "
     "enumerated: 1 request x all ACK plans up to length 2 (4 over a reduced alphabet) x all answers x read/write; 1 request x ACK x answer x close kind x 7 offsets; "
     "2 requests x ACK plans up to length 1 x all answer pairs (length 2: reduced answer alphabet at the quick tier) x {seq, conc}; 2 requests x close on either; TCP analogues with 1..3 requests; "
@@ -51,11 +53,11 @@ EPS = 1e-6
 
 ACKS = ["ok", "drop", "acklost", ("dup", 0.02), "err", "stale", "wrongch"]
 ACKS_SMALL = ["ok", "drop", "err", "stale"]
-ANSWERS = ["right", ("late", 10.5), "twice", "otherprop", "othertype", "otherinst", "othermsg", "none", "ind", "indnone", "errcode"]
+ANSWERS = ["right", ("late", 10.5), "twice", "otherprop", "othertype", "otherinst", "othermsg", "none", "ind", "indnone", "indother", "errcode"]
 ANSWERS_SMALL = ["right", "none", ("late", 10.5), "otherprop"]
 CLOSE_DELAYS = [0.0, 0.003, 0.0075, 0.012, 5.0, 10.004, 12.0]
 SYM = {"ok": "k", "drop": "d", "acklost": "l", "dup": "D", "err": "e", "stale": "s", "wrongch": "w"}
-ASYM = {"right": "r", "late": "L", "twice": "2", "otherprop": "p", "othertype": "t", "otherinst": "i", "othermsg": "m", "none": "n", "ind": "I", "indnone": "J", "errcode": "E"}
+ASYM = {"right": "r", "late": "L", "twice": "2", "otherprop": "p", "othertype": "t", "otherinst": "i", "othermsg": "m", "none": "n", "ind": "I", "indnone": "J", "indother": "O", "errcode": "E"}
 
 # (object type, instance, property id): pairwise distinct in all three fields' combination
 PROPS = [(0x000B, 1, 52), (0x0000, 1, 12), (0x000B, 2, 56), (0x0008, 1, 30)]
@@ -75,7 +77,7 @@ def label(case) -> str:
     a = "".join(SYM[_name(o)] for o in case.get("ack_plan", []))
     b = "".join(ASYM[_name(o)] for o in case.get("ans_plan", []))
     c = case.get("close")
-    return f"{case['transport']}/{case.get('mode', 'seq')}/{len(case['reqs'])} ack[{a}] ans[{b}]" + (f" close[{c['kind']}@{c['req']}+{c['delay']}]" if c else "")
+    return f"{case['transport']}{'-nocb' if case.get('no_cb') else ''}/{case.get('mode', 'seq')}/{len(case['reqs'])} ack[{a}] ans[{b}]" + (f" close[{c['kind']}@{c['req']}+{c['delay']}]" if c else "")
 
 
 # ---------------------------------------------------------------------------
@@ -165,6 +167,9 @@ class DevMgmtGateway(SimGateway):
             pass
         elif name == "ind":
             frame(0xF7, prop, "indication", 1.5 * NET_DELAY)
+            frame(con, prop, "right", d0)
+        elif name == "indother":
+            frame(0xF7, (prop[0], prop[1], prop[2] + 100), "indication-other-property", 1.5 * NET_DELAY)
             frame(con, prop, "right", d0)
         elif name == "indnone":
             frame(0xF7, prop, "indication", d0)
@@ -270,10 +275,12 @@ def execute(case: dict):
                 raw = repr(e).encode()
             inds.append({"t": round(loop.time(), 6), "tick": loop.tick, "raw": raw})
 
+        # with and without an indication callback (None is the constructor default)
+        cb = {} if case.get("no_cb") else {"indication_callback": on_ind}
         if case["transport"] == "udp":
-            conn = UDPDeviceManagementConnection(GW_ADDR[0], GW_ADDR[1], local_ip="10.0.0.2", indication_callback=on_ind)
+            conn = UDPDeviceManagementConnection(GW_ADDR[0], GW_ADDR[1], local_ip="10.0.0.2", **cb)
         else:
-            conn = TCPDeviceManagementConnection(GW_ADDR[0], GW_ADDR[1], indication_callback=on_ind)
+            conn = TCPDeviceManagementConnection(GW_ADDR[0], GW_ADDR[1], **cb)
         bg: list = []
 
         def client_disconnect() -> None:
@@ -430,6 +437,8 @@ def judge(ctx, case, gw, calls, inds, out, raws, escaped) -> None:
             ctx.fail("C32:indication-delivered-twice", inp, f"indication {x['raw'].hex()} reached the callback twice")
         seen_raw.append(x["raw"])
     for f in ind_frames:
+        if case.get("no_cb"):
+            break  # no callback registered: indications go nowhere (a caller getting one is caught by (A))
         if any(abs(f["t"] - t) < EPS for t in close_times):
             continue
         if any(t < f["t"] and f["epoch"] == e_ for t, e_ in [(e["t"], e["epoch"]) for e in log if e["kind"] in ("transport_lost", "client_disconnect_called", "DisconnectRequest")]):
@@ -592,6 +601,8 @@ def enum_cases(kind: str, arg, small: bool = True) -> list[dict]:
             for a in ANSWERS:
                 for reqs in R1:
                     cases.append({"transport": "udp", "reqs": reqs, "ack_plan": [_j(o) for o in plan], "ans_plan": [_j(a)]})
+                    if len(plan) == 1:
+                        cases.append({"transport": "udp", "no_cb": True, "reqs": reqs, "ack_plan": [_j(o) for o in plan], "ans_plan": [_j(a)]})
     elif kind == "udp1long":  # 1 request: ack plans of length 3..4 over the reduced alphabet, starting with `arg`
         for L in (3, 4):
             for rest in itertools.product(ACKS_SMALL, repeat=L - 1):
@@ -608,6 +619,8 @@ def enum_cases(kind: str, arg, small: bool = True) -> list[dict]:
                 for b in ANSWERS:
                     for mode in ("seq", "conc"):
                         cases.append({"transport": "udp", "mode": mode, "reqs": R2, "ack_plan": [_j(o) for o in plan], "ans_plan": [_j(a), _j(b)]})
+                        if arg is None or arg == "acklost":
+                            cases.append({"transport": "udp", "no_cb": True, "mode": mode, "reqs": R2, "ack_plan": [_j(o) for o in plan], "ans_plan": [_j(a), _j(b)]})
     elif kind == "udp2ack2":  # 2 requests: ack plans of length 2 starting with `arg`; reduced (quick) or all (thorough) answer pairs
         answers = ANSWERS_SMALL if small else ANSWERS
         for b_ in ACKS:
@@ -626,12 +639,14 @@ def enum_cases(kind: str, arg, small: bool = True) -> list[dict]:
         for a in ANSWERS:
             for reqs in R1:
                 cases.append({"transport": "tcp", "reqs": reqs, "ans_plan": [_j(a)]})
+                cases.append({"transport": "tcp", "no_cb": True, "reqs": reqs, "ans_plan": [_j(a)]})
                 for ck in ("sdisc", "cdisc", "lose"):
                     for d in CLOSE_DELAYS:
                         cases.append({"transport": "tcp", "reqs": reqs, "ans_plan": [_j(a)], "close": {"kind": ck, "req": 0, "delay": d}, "reconnect": d == 0.0075})
             for b in ANSWERS:
                 for mode in ("seq", "conc"):
                     cases.append({"transport": "tcp", "mode": mode, "reqs": R2, "ans_plan": [_j(a), _j(b)]})
+                    cases.append({"transport": "tcp", "no_cb": True, "mode": mode, "reqs": R2, "ans_plan": [_j(a), _j(b)]})
                 if a in ANSWERS_SMALL and b in ANSWERS_SMALL:
                     for ck in ("sdisc", "cdisc", "lose"):
                         for rq in (0, 1):
@@ -694,6 +709,8 @@ def cases(draw):
         "reconnect": draw(st.booleans()),
     }
     if draw(st.integers(0, 2)) == 0:
+        case["no_cb"] = True
+    if draw(st.integers(0, 2)) == 0:
         kinds = ["sdisc", "cdisc"] + (["lose"] if transport == "tcp" else [])
         case["close"] = {
             "kind": draw(st.sampled_from(kinds)),
@@ -708,7 +725,7 @@ def _hyp_oracle(ctx, case) -> None:
     ctx.case(
         repr(sorted(case.items())),
         nontrivial=nontrivial(case),
-        cls=[case["transport"], case["mode"], "callers=%d" % len(case["reqs"]), "close" if case.get("close") else "no-close", "reconnect" if case.get("reconnect") else "single-connection"],
+        cls=[case["transport"], case["mode"], "callers=%d" % len(case["reqs"]), "close" if case.get("close") else "no-close", "no-indication-callback" if case.get("no_cb") else "indication-callback", "reconnect" if case.get("reconnect") else "single-connection"],
         sample=label(_norm(case)) if len(case["ack_plan"]) > 3 else None,
     )
 
